@@ -18,21 +18,28 @@ RELATED = {
     'C01': ['C07'], 'C02': ['C03'], 'C03': [], 'C04': ['C12'], 'C05': [], 'C06': [], 'C07': ['C01'], 'C08': [], 'C09': ['C01'],
     'C10': ['C17'], 'C11': [], 'C12': ['C04'], 'C13': [], 'C14': [], 'C15': [], 'C16': [], 'C17': [], 'C18': [], 'C19': [], 'C20': [],
 }
-OVERRIDE_CHECKS = {'C05/a': ['C05'], 'C07/b': ['C05', 'C07'], 'C10/b': ['C17', 'C10'], 'C17/a': ['C17']}
+OVERRIDE_CHECKS = {'C05/a': ['C05'], 'C07/b': ['C05', 'C07'], 'C10/b': ['C10', 'C17'], 'C17/a': ['C17'], 'C04/d': ['C04', 'C17'], 'C10/d': ['C10', 'C05'], 'C10/c': ['C10', 'C17'], 'C05/d': ['C05']}
 
 
 def ids():
     out = []
     for i in range(1, 21):
-        for x in 'ab':
+        for x in 'abcd':
             out.append('C%02d/%s' % (i, x))
     return out
+
+
+def source_dir(pid, x):
+    # round 1 deliveries are a/b under /tmp/seeded, round 2 deliveries (a/b under /tmp/seeded2) are kept as c/d
+    if x in 'ab':
+        return os.path.join(SRC, pid, x)
+    return os.path.join('/tmp/seeded2', pid, {'c': 'a', 'd': 'b'}[x])
 
 
 def collect():
     for key in ids():
         pid, x = key.split('/')
-        src = os.path.join(SRC, pid, x)
+        src = source_dir(pid, x)
         dst = os.path.join(V, 'seeded', pid, x)
         if not os.path.isdir(src):
             continue
@@ -53,7 +60,7 @@ def collect():
             'id': key, 'breaks_property': pid,
             'change': needs.get(key, ['', ''])[0],
             'needs_to_manifest': needs.get(key, ['', ''])[1],
-            'author': 'independent sub-agent given only the property text and a scratch worktree',
+            'author': 'independent sub-agent given only the property text and a scratch worktree (round %d)' % (1 if x in 'ab' else 2),
             'rebased_onto_repaired_tree': rebased,
         })
         json.dump(meta, open(meta_p, 'w'), indent=1)
